@@ -411,12 +411,20 @@ def mechanism_label(case, desc, klass, facet, prefix):
         return "window:cumulative-int:meta-dtype(int64->float64)"
     elif klass.startswith(("indexcol:series.add_prefix:", "indexcol:series.add_suffix:")) and facet.startswith("meta-index-name"):
         return "indexcol:series.add_prefix/add_suffix:named-index:meta-index-name"
-    elif klass.startswith("pushdown:combine_first") and facet == "meta-columns@partition":
-        return "pushdown:combine_first:empty-partition:meta-columns@partition"
+    elif klass.startswith("pushdown:combine_first") and facet.startswith("meta-columns"):
+        # pandas orders the columns of combine_first differently when an operand has no rows
+        return "pushdown:combine_first:empty-operand:meta-columns"
     return "%s:%s" % (klass, facet)
 
 
 CONSUMER_CLASSES = ("indexcol", "pushdown", "select-after")
+
+
+def _reads_alone(t, fam, col):
+    """does the consumer read column ``col`` as a single-column selection (directly, as a mask or as an operand)"""
+    if fam == "getcol":
+        return t.get("col") == col
+    return t.get("by") == col or col in (t.get("c1"), t.get("c2")) or (fam == "filter" and t.get("col") == col and t["op"] != "filter-getcols")
 
 
 def same_structure(a, b):
@@ -459,10 +467,13 @@ def consumer_klass(desc, tail, inner_ref):
         inner = desc["inner"]
         if inner["class"] == "window" and inner.get("op") == "rolling" and inner.get("target") == "frame":
             return "select-after:window:rolling:frame>column-selection"
+    if desc["class"] == "pushdown" and desc["op"] == "explode" and _reads_alone(t, fam, "b"):
+        return "pushdown:explode>exploded-column-read-alone"       # (directly or in a mask: it loses the index)
     if desc["class"] == "indexcol":
         moves = list(desc["moves"])
-        while moves and moves[-1]["op"] in ("rename_axis", "squeeze"):     # (rename the new index / leave two columns as they are)
-            moves.pop()
+        while moves and (moves[-1]["op"] in ("rename_axis", "squeeze") or
+                         moves[-1]["op"] == "reset_index" and moves[-1]["drop"] and moves[-1].get("on") == "frame"):
+            moves.pop()     # (rename the new index / leave two columns as they are / number the rows again)
         last = moves[-1] if moves else {}
         if fam == "getcol" and last.get("op") == "reset_index" and last.get("on") == "series" and not last["drop"]:
             col = t.get("col")
@@ -484,9 +495,16 @@ def raises_label(desc, tail, exc, site):
     program and the exception TYPE (the innermost dask frame depends on the scheduler path, so it is not part of the label)"""
     from vf.gen import c42_programs as Q
 
-    et = type(exc).__name__
+    et = "TypeError" if isinstance(exc, TypeError) else type(exc).__name__        # (numpy's UFuncTypeError ...)
     k = desc["class"]
     t = tail or desc["tail"]
+    head = consumer_klass(desc, t, None)
+    if ":series.reset_index>getcol:" in head:
+        # the single column read is not what the meta says (values instead of the index column): the consumer's own
+        # operation (+ Timedelta, + "_s" ...) fails on the other dtype
+        return "%s:raises:%s" % (head, et)
+    if head == "pushdown:explode>exploded-column-read-alone":
+        return "%s:raises:%s" % (head, et)
     if k == "indexcol":
         feats = Q.indexcol_features(desc, t)
         reset = any("reset_index" in f for f in feats)
